@@ -179,8 +179,14 @@ def key_name(fmt, i):
         return "key_%d" % i
     if fmt == "po":
         # key_str of (msgid, msgctxt): with context for some, one msgid in two contexts
-        if i % 5 == 4:
-            return "same id\x04ctx %d" % i
+        # one msgid without context, with the explicit empty context `msgctxt ""` and with a
+        # non-empty one: three different keys (msgid, None), (msgid, ""), (msgid, "ctx")
+        if i % 6 == 0:
+            return "same id %d" % (i // 6)
+        if i % 6 == 1:
+            return "same id %d\x04" % (i // 6)
+        if i % 6 == 2:
+            return "same id %d\x04ctx" % (i // 6)
         return "key %d" % i + ("\x04menu %d" % i if i % 3 == 1 else "")
     return "key%d" % i
 
@@ -234,8 +240,8 @@ def render_entity(fmt, key, value, style=0):
             return '<string name="%s"/>' % key
         return '<string name="%s">%s</string>' % (key, value)
     if fmt == "po":
-        msgid, _, ctx = key.partition("\x04")
-        head = 'msgctxt "%s"\n' % ctx if ctx else ""
+        msgid, sep, ctx = key.partition("\x04")
+        head = 'msgctxt "%s"\n' % ctx if sep else ""
         if style == 1 and " " in msgid:       # a multi-line string list evaluates to the same id
             a, b = msgid.split(" ", 1)
             return head + 'msgid ""\n"%s "\n"%s"\n%s' % (a, b, value)
@@ -277,6 +283,12 @@ def render(fmt, items, style=0):
         return '<?xml version="1.0" encoding="utf-8"?>\n<resources' + attrs + '>\n' + body + \
             "</resources>\n"
     return body
+
+
+# attributes of the Android root element (sticky DocumentWrapper entries keyed by name)
+ATTR_POOL = [("xmlns:xliff", "urn:oasis:names:tc:xliff:document:1.2"),
+             ("xmlns:tools", "http://schemas.android.com/tools"), ("tools", "t1"),
+             ("xmlns:xliff", "urn:x2")]
 
 
 def gen_items(fmt, rng, nkeys, lang="L", blanks=True):
@@ -352,6 +364,11 @@ def edit_items(fmt, rng, items, nkeys, lang="L", blanks=True):
         elif loose and r < 0.94:                    # add a standalone comment or a blank line
             pos = rng.randint(insert_floor(fmt, items), len(items))
             items.insert(pos, ("com", rng.choice(COMMENTS)) if rng.random() < 0.6 else ("blank",))
+        elif r < 0.96 and fmt == "android" and rng.random() < 0.5:   # a root attribute only here
+            have = {it[1] for it in items if it[0] == "attr"}
+            free = [a for a in ATTR_POOL if a[0] not in have]
+            if free:
+                items.insert(0, ("attr",) + rng.choice(free))
         elif r < 0.96 and any(it[0] == "attr" for it in items):   # change / drop an attribute
             i = rng.choice([i for i, it in enumerate(items) if it[0] == "attr"])
             if rng.random() < 0.5:
@@ -748,6 +765,12 @@ def run(chk, runner_ok):
             keep = (i // 4) % 2 == 0
             ecases.append({"fmt": case["fmt"], "versions": case["texts"], "keep_newest": keep})
             eimpl.append(impl_entries(name, case["texts"], keep))
+            if eimpl[-1][0] != 0:
+                chk.fail("merge-raises", {"fmt": case["fmt"], "versions": case["texts"],
+                                          "keep_newest": keep, "items": case["items"]},
+                         {"merge_resources": eimpl[-1],
+                          "why": "merge_resources / serialize_legacy_resource must not raise on "
+                                 "junk-free versions"})
             ereqs.append((2, [int(keep), mv]))
         if i < 3:
             chk.sample({"suite": "CHANNELS", "format": case["fmt"], "versions": case["texts"],
@@ -878,7 +901,11 @@ def replay(chk, path):
     for f in data.get("failures", []):
         c = f["case"]
         before = len(sub.failures)
-        if "items" in c:
+        if "keep_newest" in c:
+            res = impl_entries(FNAME[c["fmt"]], c["versions"], c["keep_newest"])
+            if res[0] != 0:
+                sub.fail("merge-raises", c, res)
+        elif "items" in c:
             res, text = impl_merge(FNAME[c["fmt"]], c["versions"])
             if text is None:
                 sub.fail("merge-raises", c, res)
